@@ -31,7 +31,7 @@ ALPHA2 = "jxJX98"
 TMPL = st.lists(st.sampled_from(["c", "c", "c", "c", " ", "%", "%s", "%(x)s", "{}", "{0}", "é", "\t", '"', "\\", "%d", "*", "я", "€", "\udc80"]),
                 min_size=1, max_size=12)
 MODES = ["client", "client", "raw", "early", "twice", "free", "nouser", "reuser", "client_context", "overlimit", "overlimit_server",
-         "error_paths", "client_latin1", "client_ascii", "client_latin1"]
+         "error_paths", "client_latin1", "client_ascii", "client_latin1", "work", "work"]
 CASE = st.tuples(TMPL, st.sampled_from(MODES), st.sampled_from(["PASS", "pass", "PaSs"]), st.booleans())
 
 
@@ -53,11 +53,60 @@ def render(t, alpha):
     return "".join(alpha[i % len(alpha)] if x == "c" else x for i, x in enumerate(t))
 
 
+class GhostIO(aioftp.MemoryPathIO):
+    """An entry that is listed by its directory but does not exist when looked at (removed in between / dangling link)."""
+
+    @aioftp.pathio.universal_exception
+    async def exists(self, path):
+        if path.name == "ghost":
+            return False
+        return await super().exists(path)
+
+
 async def session(loop, pw, stored, mode, verb):
     limit = 1 if mode == "overlimit" else None
     server = aioftp.Server([aioftp.User("bob", stored, maximum_connections=limit), aioftp.User("free", None)],
-                           path_io_factory=aioftp.MemoryPathIO, maximum_connections=2 if mode == "overlimit_server" else None)
+                           path_io_factory=GhostIO if mode == "work" else aioftp.MemoryPathIO,
+                           maximum_connections=2 if mode == "overlimit_server" else None, wait_future_timeout=1)
     await server.start(HOST, PORT)
+    if mode == "work":
+        # a logged-in session of the password user walks through the server's other logging sites: listings (also of a
+        # directory with a vanished entry), transfers, a transfer without data connection (425), ABOR, QUIT
+        raw = harness.Raw()
+        await raw.connect()
+        await raw.cmd("USER bob")
+        code, _ = await raw.cmd(verb + " " + pw)
+        if code == "230":
+            await raw.cmd("MKD /d")
+            for ln, payload in (("STOR /d/ghost", b"boo"), ("STOR /d/f", b"data"), ("LIST /d", None), ("MLSD /d", None), ("LIST", None),
+                                ("RETR /d/f", None), ("RETR /d/ghost", None)):
+                code, lines = await raw.cmd("EPSV")
+                if code != "229":
+                    break
+                raw.passive_port = harness.parse_passive(code, lines[-1])
+                d = await raw.open_data()
+                await asyncio.sleep(0.05)
+                code, _ = await raw.cmd(ln)
+                if code == "150":
+                    if payload is not None:
+                        d[1].write(payload)
+                        d[1].close()
+                    else:
+                        await harness.read_all(d[0], 20)
+                        d[1].close()
+                    await raw.reply()
+                else:
+                    d[1].close()
+            await raw.cmd("EPSV")
+            code, _ = await raw.cmd("LIST /d")
+            if code == "150":
+                await raw.reply()  # 425
+            await raw.cmd("ABOR")
+            await raw.cmd("QUIT")
+        raw.close()
+        await asyncio.sleep(0.1)
+        await server.close()
+        return
     if mode in ("overlimit", "overlimit_server"):
         # the account (or the server) is at its connection limit when another session asks for it
         first = harness.Raw()
